@@ -19,6 +19,10 @@ val chop_trunc : coq_Z -> coq_Z
 
 val dec_of_int : coq_Z -> coq_Z
 
+val dadd : coq_Z -> coq_Z -> coq_Z
+
+val dsub : coq_Z -> coq_Z -> coq_Z
+
 val dmul : coq_Z -> coq_Z -> coq_Z
 
 val dmul_trunc : coq_Z -> coq_Z -> coq_Z
@@ -30,6 +34,8 @@ val dquo : coq_Z -> coq_Z -> coq_Z
 val dquo_trunc : coq_Z -> coq_Z -> coq_Z
 
 val dquo_up : coq_Z -> coq_Z -> coq_Z
+
+val dquo_int : coq_Z -> coq_Z -> coq_Z
 
 val dtrunc_int : coq_Z -> coq_Z
 
